@@ -25,7 +25,8 @@ class TieWriter(Relation):
     kind = 'corr'
     requires = REQ
     describe = ('exhaustive over all tie-decision vectors for every list length up to the bound; entries a random '
-                'permutation; every third case passes the decisions as a numpy integer array; non-trivial = length >= 2 '
+                'permutation; every third case passes the decisions as a numpy integer array; plus lists of 255..300 (thorough: 1025) '
+                'entries with the last decisions set and unset; non-trivial = length >= 2 '
                 'and at least one decision set')
 
     def cases(self, ctx):
@@ -39,6 +40,12 @@ class TieWriter(Relation):
                 if k % 4 == 1:
                     l = [x + rng.choice([7, 95, 998]) for x in l]      # multi-digit entries
                 yield dict(l=l, ties=list(v), numpy=(k % 3 == 0))
+        # long lists (more than 256 entries: beyond CPython's shared small integers, three-digit positions), random
+        # decisions with the last one / the last few set and unset
+        for n in [255, 256, 257, 258, 259, 300] + ([1023, 1025] if ctx.thorough else []):
+            for tail in ([False], [True], [True, True], [True, False], [False, True], [True, True, True]):
+                t = [rng.random() < 0.4 for _ in range(n - len(tail))] + tail
+                yield dict(l=_perm(rng, n), ties=t, numpy=(n % 2 == 0))
         # decision vectors longer / shorter than the list (IndexError path of the code)
         yield dict(l=[3, 1, 2], ties=[True, False], numpy=False)
         yield dict(l=[3, 1, 2], ties=[False, True, True, True], numpy=False)
@@ -125,6 +132,10 @@ class RoundTrip(Relation):
         for n in range(0, maxn + 1):
             for v in _vectors(n):
                 yield dict(l=_perm(rng, n), ties=list(v))
+        for n in [256, 257, 258, 300] + ([1025] if ctx.thorough else []):
+            for tail in ([False], [True], [True, True], [False, True]):
+                t = [rng.random() < 0.4 for _ in range(n - len(tail))] + tail
+                yield dict(l=_perm(rng, n), ties=t)
 
     def observe(self, inp):
         from matchingproblems.generator import generator_shared as gs
